@@ -26,3 +26,19 @@ pub fn csc_gemv_t(A: &CscMatrix<f64>, y: &mut [f64], x: &[f64], a: f64, b: f64) 
 pub fn csc_symv(A: &CscMatrix<f64>, y: &mut [f64], x: &[f64], a: f64, b: f64) {
     A.sym().symv(y, x, a, b);
 }
+
+// ---------------------------------------------------------------------------
+// presolve (C09)
+// ---------------------------------------------------------------------------
+use crate::solver::implementations::default::DefaultProblemData;
+
+/// the presolver's keep-map (None when no reduction took place)
+pub fn presolver_keep(data: &DefaultProblemData<f64>) -> Option<Vec<bool>> {
+    data.presolver
+        .as_ref()
+        .and_then(|p| p.reduce_map.as_ref().map(|m| m.keep_logical.clone()))
+}
+/// (mfull, mreduced, infbound) recorded by the presolver
+pub fn presolver_dims(data: &DefaultProblemData<f64>) -> Option<(usize, usize, f64)> {
+    data.presolver.as_ref().map(|p| (p.mfull, p.mreduced, p.infbound))
+}
